@@ -33,4 +33,13 @@ theorem check_path_runs_no_finalisation :
     (OLP.Gen.checkRuns.filter (fun r => r.fn == "action/governance.FinalizeProposal.ProcessCheck")).map
       (fun r => r.what) = [""] := by decide
 
+/-- the shared EVM state object (`CommitStateDB`: one instance with a state-agnostic object cache,
+    used by both paths) is touched on the mempool path only to ask whether the fork is enabled and
+    to obtain the account keeper; in particular OLVM `Validate` / `ProcessCheck` never read
+    accounts through it and never execute the VM -/
+theorem check_path_statedb_uses :
+    OLP.Gen.checkStateDB =
+      [⟨"action/olvm.olvmTx.Validate", "StateDB.Enabled"⟩,
+       ⟨"action/olvm.olvmTx.Validate", "StateDB.GetAccountKeeper"⟩] := by decide
+
 end OLP.Props.C07.Facts
